@@ -33,6 +33,10 @@ def poll_rules(ctx, which):
     from . import inventory, mustpass
     inventory.check_awaits(ctx, ["nexosim/src/ports/%s/broadcaster.rs" % which, "nexosim/src/ports/%s.rs" % which])
     inventory.check(ctx, ["task-set-take"])
+    if which == "output":
+        # the TaskSet that carries the sub-futures' wake-ups (index / countdown word, notification discipline)
+        from . import c14
+        c14.rule_g(ctx)
     mustpass.check(ctx, ["%s-broadcast-polls" % which])
     b = P.body(POLLS[which])
     if b is None:
